@@ -22,13 +22,29 @@ TYPES_LANG = ["Integer", "Text", "String(50)", "String(7)"]
 TYPES_ALL = TYPES_LANG + ["Float", "Numeric(10,3)", "Date", "DateTime", "Boolean", "Numeric(20,6)"]
 
 
+# what sqlalchemy.text() treats specially, in forms that are legal inside an op.execute() string literal:
+# the documented \\:name escape of a literal colon, '::', a colon not followed by a word / glued to a word,
+# percent signs, positional markers
+TEXT_ATOMS = ["\\:intro", "x\\:y", "\\:a \\:b", "\\: ", "::", "a::b", "a:b", "a: b", "t:1", "%", "%%", "%s", "100%", "%d%%", "?", "?1", "$1", "@x"]
+# bind-looking tokens that are NOT escaped (user error per the text() docs; see finding C12-BINDTEXT)
+BIND_ATOMS = [" :x ", ":name", "%(x)s", " :x1"]
+
+
 def gen_str(rng, tabs=False, for_text=False):
+    """for_text: False = a bound value; "plain" = inside an op.execute() text, colons removed;
+    "text" = the same plus TEXT_ATOMS; "bind" = plus unescaped bind-looking tokens"""
     n = rng.choice([0, 1, 1, 2, 3, 3, 5, 8])
     atoms = STR_ATOMS + (["\t", "a\tb"] if tabs else [])
-    s = "".join(rng.choice(atoms) for _ in range(n))
+    parts = [rng.choice(atoms) for _ in range(n)]
     if for_text:
-        s = s.replace(":", "")  # sqlalchemy.text() would read :name as a bind parameter, also inside quotes
-    return s
+        # sqlalchemy.text() would read :name as a bind parameter, also inside quotes
+        parts = [x.replace(":", "") for x in parts]
+        if for_text in ("text", "bind"):
+            for _ in range(rng.choice([0, 1, 1, 2])):
+                parts.insert(rng.randint(0, len(parts)), rng.choice(TEXT_ATOMS))
+        if for_text == "bind" and rng.random() < 0.5:
+            parts.insert(rng.randint(0, len(parts)), rng.choice(BIND_ATOMS))
+    return "".join(parts)
 
 
 def gen_value(rng, typ, nullable=True, tabs=False, for_text=False):
@@ -81,8 +97,10 @@ def sql_lit(v):
 
 
 class BodyGen:
-    def __init__(self, rng, hist, lang_only=False, tabs=False, plain_names=False, hetero=False):
+    def __init__(self, rng, hist, lang_only=False, tabs=False, plain_names=False, hetero=False, bindtext=False):
         self.rng = rng
+        # string literals inside op.execute() texts: in-language bodies keep to what the Lean model reads
+        self.text_mode = "plain" if lang_only else ("bind" if bindtext else "text")
         self.hetero = hetero
         self.hist = hist
         self.lang_only = lang_only
@@ -180,7 +198,7 @@ class BodyGen:
         tn = sql_ident(table["name"])
         if kind == "update":
             c = rng.choice(tcols)
-            txt = "UPDATE %s SET %s = %s WHERE id %s %d" % (tn, sql_ident(c["name"]), sql_lit(gen_value(rng, c["type"], c["nullable"], self.tabs, True)),
+            txt = "UPDATE %s SET %s = %s WHERE id %s %d" % (tn, sql_ident(c["name"]), sql_lit(gen_value(rng, c["type"], c["nullable"], self.tabs, self.text_mode)),
                                                            rng.choice(["=", ">", "<>"]), rng.randint(0, max(1, self.nextid)))
         elif kind == "delete":
             txt = "DELETE FROM %s WHERE id = %d" % (tn, rng.randint(0, max(1, self.nextid)))
@@ -196,7 +214,7 @@ class BodyGen:
                         vals.append(str(self.nextid))
                         self.nextid += 1
                     else:
-                        vals.append(sql_lit(gen_value(rng, c["type"], c["nullable"], self.tabs, True)))
+                        vals.append(sql_lit(gen_value(rng, c["type"], c["nullable"], self.tabs, self.text_mode)))
                 if rng.random() < 0.5:  # exactly the text SQLAlchemy would write: the model's recogniser reads it as an INSERT
                     return {"op": "execute", "text": "INSERT INTO %s (%s) VALUES (%s)" % (
                         sa_quote(table["name"]), ", ".join(sa_quote(c["name"]) for c in use), ", ".join(vals))}
@@ -210,7 +228,10 @@ class BodyGen:
             txt = txt.replace(" SET ", "\tSET ").replace(" WHERE ", "\n\tWHERE ").replace(" VALUES ", "\tVALUES ")
         elif deco < 0.32:
             txt = txt.replace("UPDATE", "update").replace("DELETE FROM", "delete from").replace("INSERT INTO", "insert into")
-        return {"op": "execute", "text": txt}
+        o = {"op": "execute", "text": txt}
+        if not self.lang_only and rng.random() < 0.35:
+            o["as_text"] = True  # op.execute(sa.text(...)) instead of a plain string
+        return o
 
     def bulk(self, table, cols):
         multi = self.rng.random() < 0.7
@@ -316,7 +337,7 @@ def gen_bodies(rng, hist, **kw):
     return bodies
 
 
-def gen_case(rng, max_n, real=False, lang_only=False, tabs=False, hetero=False):
+def gen_case(rng, max_n, real=False, lang_only=False, tabs=False, hetero=False, bindtext=False):
     shape = rng.choice(["linear", "linear", "branched", "merged", "merged", "deps"])
     n = rng.randint(1, max_n)
     if shape == "linear":
@@ -332,7 +353,7 @@ def gen_case(rng, max_n, real=False, lang_only=False, tabs=False, hetero=False):
     else:
         hist = gen_history(rng, n, labels=False, deps=True, p_root=0.2, p_merge=0.3)
     ids = [r["id"] for r in hist]
-    bodies = gen_bodies(rng, hist, lang_only=lang_only, tabs=tabs, hetero=hetero, plain_names=lang_only and rng.random() < 0.5)
+    bodies = gen_bodies(rng, hist, lang_only=lang_only, tabs=tabs, hetero=hetero, bindtext=bindtext, plain_names=lang_only and rng.random() < 0.5)
     cmd = rng.choice(["upgrade", "upgrade", "upgrade", "downgrade", "downgrade"])
 
     def state(nonempty):
@@ -374,7 +395,10 @@ def in_language(ops):
                 return False
             if any(v["k"] not in ("null", "int", "str") for r in o["rows"] for v in r.values()):
                 return False
-        elif k in ("drop_table", "drop_index", "execute"):
+        elif k == "execute":
+            if ":" in o["text"] or o.get("as_text"):  # text()'s colon handling is not modelled
+                return False
+        elif k in ("drop_table", "drop_index"):
             pass
         else:
             return False
